@@ -115,6 +115,10 @@ func (x *executor) callFunction(m *machine, fr *frame, in ssa.Instruction, res s
 			return
 		}
 	}
+	if key == "log.Fatal" || key == "log.Fatalf" || key == "log.Fatalln" || key == "os.Exit" {
+		x.note("paths ending in " + key + " (process exit) are not continued and carry no postcondition")
+		x.endPath()
+	}
 	if droppedCalls[key] {
 		x.dropped[key]++
 		x.setResult(fr, res, x.zeroResults(fn.Signature))
